@@ -5,7 +5,7 @@ import re
 from ast_ import *
 from path import *
 from bits import *
-from guard import split_const
+from guard import split_const, strip_casts
 
 ACC = re.compile(r'^(p?)(get|put)_([usf])(8|16|32|64)([blr]?)$')
 NATIVE = {('u', 8): 'unsigned char', ('s', 8): 'signed char', ('u', 16): 'unsigned short', ('s', 16): 'short', ('u', 32): 'unsigned int', ('s', 32): 'int',
@@ -198,6 +198,127 @@ def check_widths(ctx, u):
             calls = [c for c in walk(body_of(g)) if c.get('kind') == 'CXXMemberCallExpr' and call_name(c) == 'pwrite']
             ok = len(adv) == 1 and len(calls) == 1 and canon(adv[0]['inner'][1]) == canon(call_args(calls[0])[2]) and canon(call_args(calls[0])[0]) == 'this.offset'
             ctx.check(ok, R, 'BufferWriter::write|advance=stored', g, 'offset advances by the size stored at offset', 'BufferWriter::write does not advance by the stored size')
+
+
+def _conj_atoms(c, pol):
+    c = strip_casts(c)
+    if c is None:
+        return []
+    k = c.get('kind')
+    if k == 'BinaryOperator' and ((c.get('opcode') == '&&' and pol) or (c.get('opcode') == '||' and not pol)):
+        return _conj_atoms(c['inner'][0], pol) + _conj_atoms(c['inner'][1], pol)
+    if k == 'UnaryOperator' and c.get('opcode') == '!':
+        return _conj_atoms(c['inner'][0], not pol)
+    if k == 'ExprWithCleanups' and kids(c):
+        return _conj_atoms(kids(c)[0], pol)
+    return [(c, pol)]
+
+
+def _nonzero_subject(n, pol):
+    """canonical X when (n, pol) says `X != 0`, else None"""
+    n = strip_casts(n)
+    if n is None:
+        return None
+    if n.get('kind') == 'BinaryOperator' and n.get('opcode') in ('!=', '>', '==') and len(n['inner']) == 2:
+        a, b = n['inner']
+        op = n['opcode']
+        if int_value(b) == 0 and ((op in ('!=', '>') and pol) or (op == '==' and not pol)):
+            return canon(a)
+        if int_value(a) == 0 and ((op == '!=' and pol) or (op == '==' and not pol)):
+            return canon(b)
+        return None
+    if n.get('kind') == 'CXXMemberCallExpr' and call_name(n) == 'empty' and not pol:
+        return canon(member_call_object(n)) + '.size()'
+    if pol and n.get('kind') in ('CXXMemberCallExpr', 'DeclRefExpr', 'MemberExpr'):
+        return canon(n)
+    return None
+
+
+def check_advance_discipline(ctx, u):
+    """every sequential accessor with an `advance` flag moves the cursor by the encoded width on
+    every path where the flag is set - no other condition decides whether the cursor moves."""
+    R = 'C01-R7'
+    from guard import subst_locals
+    seen = set()
+    for cls in ('phosg::StringReader', 'phosg::BitReader'):
+        for f in u.functions:
+            q = strip_targs(u.qualname(f))
+            if not q.startswith(cls + '::') or is_dependent_pattern(f, u) or body_of(f) is None:
+                continue
+            adv_p = [p for p in params_of(f) if p.get('name') == 'advance' and 'bool' in (qtype(p) or '')]
+            if not adv_p:
+                continue
+            key = '%s(%s)' % (q.split('::', 1)[1], ','.join(strip_targs(dtype(p) or '') for p in params_of(f)))
+            if key in seen:
+                continue
+            seen.add(key)
+            ctx.fn(q)
+            body = body_of(f)
+            writes = [x for x in walk(body) if x.get('kind') == 'CompoundAssignOperator' and x.get('opcode') == '+=' and canon(x['inner'][0]) == 'this.offset']
+            fwd = [c for c in walk(body) if c.get('kind') == 'CXXMemberCallExpr' and any((ref_decl(a) or {}).get('id') == adv_p[0]['id'] for a in call_args(c))]
+            if not writes:
+                if fwd:
+                    ctx.ok(R, key + '|forwards', f, 'forwards `advance` to %s' % call_name(fwd[0]), nontrivial=False)
+                else:
+                    incs = [x for x in walk(body) if canon(x).startswith('this.offset') and x.get('kind') in ('UnaryOperator', 'BinaryOperator') and x.get('opcode') in ('++', '=')]
+                    if incs:
+                        ctx.undecided(R, key + '|advance', f, 'cursor is updated with a form other than `offset += n`')
+                    else:
+                        ctx.bad(R, key + '|advance', f, '%s takes `advance` but never moves the cursor' % key)
+                continue
+            for i, w in enumerate(writes):
+                amount = subst_locals(canon(w['inner'][1]), w)
+                extra = []
+                has_flag = False
+                n = w
+                while n is not None and n is not body:
+                    par = n.get('_p')
+                    if par is not None and par.get('kind') == 'IfStmt':
+                        c, t, e = if_parts(par)
+                        if n is t or n is e:
+                            for a, pol in _conj_atoms(c, n is t):
+                                if (ref_decl(a) or {}).get('id') == adv_p[0]['id'] and pol:
+                                    has_flag = True
+                                    continue
+                                sub = _nonzero_subject(a, pol)
+                                if sub is not None and subst_locals(sub, w) == amount:
+                                    continue      # skipping an advance of zero changes nothing
+                                extra.append('%s%s' % ('' if pol else '!', src_text(a, 60)))
+                    elif par is not None and par.get('kind') in LOOPS:
+                        extra.append('inside a loop')
+                    n = par
+                rets_ = [canon(kids(r_)[0]) for r_ in walk(body) if r_.get('kind') == 'ReturnStmt' and kids(r_)]
+                rv = rets_[0] if len(set(rets_)) == 1 else None
+                nm_ = f.get('name')
+                want = None
+                if nm_ in ('get_cstr', 'get_line') and rv:
+                    want = {'(1 + %s.size())' % rv}
+                elif nm_ in ('read', 'readx') and 'string' in (qtype(f) or '').split('(')[0] and rv:
+                    want = {'%s.size()' % rv} | ({'size'} if nm_ == 'readx' else set())
+                elif nm_ == 'read' and cls.endswith('StringReader') and rv:
+                    want = {rv}
+                elif nm_ in ('readx', 'getv', 'read'):
+                    want = {'size'}
+                if want is not None:
+                    ctx.check(amount in want or canon(w['inner'][1]) in want, R, key + '|amount#%d' % i, w, 'advance amount %s is the encoded width' % amount,
+                              'the cursor advances by %s; the encoded width of what %s returns is %s' % (amount, nm_, ' or '.join(sorted(want))))
+                ctx.check(has_flag and not extra, R, key + '|advance#%d' % i, w,
+                          'cursor moves by %s iff `advance`' % amount,
+                          ('the cursor advance by %s is additionally conditioned on %s: with the flag set the cursor does not always move by the encoded width' % (amount, ', '.join(extra))) if has_flag else 'cursor advance is not controlled by the `advance` argument')
+            # an early plain return before the advance leaves the cursor where it was
+            first = min(w.get('_off', 0) for w in writes)
+            for r in walk(body):
+                if r.get('kind') == 'ReturnStmt' and r.get('_off', 0) < first:
+                    conds = []
+                    n = r
+                    while n is not None and n is not body:
+                        par = n.get('_p')
+                        if par is not None and par.get('kind') == 'IfStmt':
+                            c, t, e = if_parts(par)
+                            conds += _conj_atoms(c, n is t) if (n is t or n is e) else []
+                        n = par
+                    if not any((ref_decl(a) or {}).get('id') == adv_p[0]['id'] and not pol for a, pol in conds):
+                        ctx.undecided(R, key + '|early-return@%s' % r.get('_line'), r, 'a return before the cursor update is not conditioned on !advance')
 
 
 def mem_spec(order, nbytes, width, base='this.data', idx='offset'):
@@ -433,12 +554,14 @@ def run(ctx):
     ctx.rule('C01-R4', '24/48-bit accessors: lane maps equal the big/little-endian value of the 3/6 bytes at offset (E-BITS); sequential forms advance by 3/6; signed forms are ext24/ext48 of the unsigned ones', 20)
     ctx.rule('C01-R5', 'bit packers agree on MSB-first: reader selects bit 7-(n&7) of byte n>>3; writer sets bit u-1 with u unset bits, fresh byte 0x80/7; truncate keeps exactly n bits', 7)
     ctx.rule('C01-R6', 'positional writes (StringWriter::pput<T>) grow the string to cover the write, fill the gap with zero bytes, and copy sizeof(T) bytes at offset', 30)
+    ctx.rule('C01-R7', 'every sequential accessor taking `advance` (get<T>, getv, get_u24/48, read, readx, get_line, get_cstr, BitReader::read) moves the cursor by the encoded width whenever the flag is set: the update is conditioned on the flag alone (a zero-amount skip is equivalent); the amount is the encoded width', 40)
     u = ctx.unit(repo_unit('Strings.cc'))
     tables = check_accessor_table(ctx, u)
     check_symmetry(ctx, u, tables)
     check_widths(ctx, u)
     check_2448(ctx, u)
     check_bits(ctx, u)
+    check_advance_discipline(ctx, u)
     from props.c02 import check_pput
     check_pput(ctx, u, 'C01-R6')
     ctx.note('Byte-order correctness of the wrappers themselves is C03; bounds are C02. Not decided here: equality of whole value sequences under arbitrary interleavings of appends and positional writes.')
